@@ -318,6 +318,10 @@ def _engine_classes():
 
     class DFRun(Run):
         def boot(self):
+            from stabilize.queue.dedup import get_deduplicator, reset_deduplicator
+
+            reset_deduplicator()
+            get_deduplicator(expected_items=300)     # < 100 messages per run; fill_ratio() is O(filter size) per message
             super().boot()
             regs = {id(h.task_registry): h.task_registry for h in self.proc._handlers.values()
                     if hasattr(h, "task_registry")}
@@ -398,8 +402,12 @@ def run_one(prog: dict, job: dict) -> dict:
 def worker_main(inp: str, outp: str) -> int:
     spec = json.load(open(inp))
     res = []
+    deadline = spec.get("deadline")
     for prog, job in spec["items"]:
         job = dict(job, hashseed=spec["hashseed"])
+        if deadline and time.time() > deadline:      # wall-clock budget of the tier: the rest is reported as skipped
+            res.append({"prog": prog["name"], "job": job, "skipped": True})
+            continue
         try:
             res.append(run_one(prog, job))
         except Exception as e:  # noqa: BLE001
@@ -411,7 +419,8 @@ def worker_main(inp: str, outp: str) -> int:
     return 0
 
 
-def run_engine_jobs(items: list[tuple[dict, dict]], hashseeds: list[int], workdir: str, repo_src: str | None = None) -> list[dict]:
+def run_engine_jobs(items: list[tuple[dict, dict]], hashseeds: list[int], workdir: str, repo_src: str | None = None,
+                    deadline: float | None = None) -> list[dict]:
     """items are dealt round-robin to one worker process per hash seed."""
     chunks: dict[int, list] = {h: [] for h in hashseeds}
     for i, it in enumerate(items):
@@ -423,7 +432,7 @@ def run_engine_jobs(items: list[tuple[dict, dict]], hashseeds: list[int], workdi
         inp = os.path.join(workdir, "jobs-%d.json" % h)
         outp = os.path.join(workdir, "res-%d.json" % h)
         with open(inp, "w") as fh:
-            json.dump({"hashseed": h, "items": chunks[h]}, fh)
+            json.dump({"hashseed": h, "items": chunks[h], "deadline": deadline}, fh)
         env = dict(os.environ)
         env["PYTHONHASHSEED"] = str(h)
         if repo_src:
@@ -527,7 +536,8 @@ def model_check(cases: list[dict], store_merged: bool, invariants=THEOREMS, merg
     return out
 
 
-def validate_runs(cases: list[dict], runs: list[list[dict]], batch_events: int = 2500, par: int = 8) -> dict:
+def validate_runs(cases: list[dict], runs: list[list[dict]], batch_events: int = 2500, par: int = 8,
+                  store_merged: bool = True) -> dict:
     """runs[ci] = list of run dicts (events with projected views).  -> {failed: [...], done: set, states, fail}"""
     groups: list[list[tuple[int, list[int]]]] = []
     cur: list[tuple[int, list[int]]] = []
@@ -543,7 +553,7 @@ def validate_runs(cases: list[dict], runs: list[list[dict]], batch_events: int =
             cur, size = [], 0
     if cur:
         groups.append(cur)
-    cfg = _cfg("TInit", "TNext", True)
+    cfg = _cfg("TInit", "TNext", store_merged)
     out = {"failed": [], "done": set(), "states": 0, "generated": 0, "fail": None, "wall": 0.0, "batches": len(groups)}
 
     def one(g):
@@ -596,8 +606,10 @@ def _reducers_job(tier: str, seed: int) -> dict:
 # the check
 # ----------------------------------------------------------------------------------------------
 TIERS = {
-    "quick": {"n_free": 70, "n_loop": 40, "scheds": 10, "hashseeds": 16, "mc_batch": 30},
-    "thorough": {"n_free": 900, "n_loop": 500, "scheds": 40, "hashseeds": 64, "mc_batch": 24},
+    "quick": {"n_free": 60, "n_loop": 36, "scheds": 7, "hashseeds": 16, "mc_batch": 40, "exhaustive": 2,
+              "trace_batch": 2500, "engine_budget_s": 55},
+    "thorough": {"n_free": 400, "n_loop": 250, "scheds": 24, "hashseeds": 64, "mc_batch": 60, "exhaustive": 4,
+                 "trace_batch": 8000, "engine_budget_s": 720},
 }
 
 
@@ -611,9 +623,13 @@ def run(pid: str, tier: str, seed: int, corrupt: bool = False, repo_src: str | N
             rep.findings += [f for f in json.load(fh) if f["id"] not in have and f["property"] == pid]
     cfgt = dict(TIERS["thorough" if tier == "thorough" else "quick"])
     cfgt.update(sizes or {})
-    progs = gen_programs(seed, cfgt["n_free"], cfgt["n_loop"])
+    progs = gen_programs(seed, cfgt["n_free"], cfgt["n_loop"], cfgt.get("exhaustive", 0))
     cases = [tla_case(p) for p in progs]
-    pool = cf.ProcessPoolExecutor(max_workers=1) if with_reducers else None
+    if repo_src:        # a mutated scratch copy of the engine: the spawned reducer process must import it too
+        os.environ["VERIF_REPO"] = os.path.dirname(repo_src)
+    import multiprocessing as mp
+
+    pool = cf.ProcessPoolExecutor(max_workers=1, mp_context=mp.get_context("spawn")) if with_reducers else None
     red_future = pool.submit(_reducers_job, tier, seed) if pool else None
     work = core.scratch_dir("df-work")
     cov: dict[str, Any] = {"exhaustive": False}
@@ -621,17 +637,20 @@ def run(pid: str, tier: str, seed: int, corrupt: bool = False, repo_src: str | N
     try:
         # -- engine runs ---------------------------------------------------------------------------
         rng = random.Random(seed * 7907 + 3)
-        items = []
+        items = [(p, {"kind": "fifo"}) for p in progs]
+        rng.shuffle(items)                 # in-order runs of every program first, then the schedules in random order
+        scheds = []
         for p in progs:
-            items.append((p, {"kind": "fifo"}))
-            for j in range(cfgt["scheds"]):
-                items.append((p, {"kind": "sched", "seed": rng.randrange(1 << 30), "p_withhold": 0.0 if j % 3 else 0.15}))
-        rng.shuffle(items)
+            for j in range(1 if str(p.get("shape", "")).startswith("exh") else cfgt["scheds"]):
+                scheds.append((p, {"kind": "sched", "seed": rng.randrange(1 << 30), "p_withhold": 0.0 if j % 3 else 0.15}))
+        rng.shuffle(scheds)
+        items += scheds
+        deadline = t0 + cfgt["engine_budget_s"]
         hashseeds = [(seed * 131 + 17 * i) % 4294967295 for i in range(cfgt["hashseeds"])]
         te = time.time()
         # engine workers and the model checker run side by side
         with cf.ThreadPoolExecutor(max_workers=3) as tp:
-            f_eng = tp.submit(run_engine_jobs, items, hashseeds, work, repo_src)
+            f_eng = tp.submit(run_engine_jobs, items, hashseeds, work, repo_src, deadline)
             f_mc = tp.submit(model_check, cases, True, THEOREMS, "kahn", True, cfgt["mc_batch"], 5, True)
             f_ideal = tp.submit(model_check, cases, False, ("TypeOK",), "kahn", True, cfgt["mc_batch"], 3, False)
             results = f_eng.result()
@@ -641,9 +660,13 @@ def run(pid: str, tier: str, seed: int, corrupt: bool = False, repo_src: str | N
         name_ix = {p["name"]: i for i, p in enumerate(progs)}
         runs: list[list[dict]] = [[] for _ in progs]
         cov["engine_src"] = sorted({r["src"] for r in results if "src" in r})
+        skipped = 0
         for r in results:
             if "error" in r:
                 rep.machinery_failure("engine run failed: " + r["error"])
+                continue
+            if r.get("skipped"):
+                skipped += 1
                 continue
             runs[name_ix[r["prog"]]].append(project_run(r))
         if corrupt:        # binding demonstration: one recorded value replaced by the value of a farther ancestor
@@ -652,14 +675,28 @@ def run(pid: str, tier: str, seed: int, corrupt: bool = False, repo_src: str | N
             if m["fail"]:
                 rep.machinery_failure("model checking (%s): %s" % (nm, m["fail"]))
         # -- trace validation ------------------------------------------------------------------------
-        tv = validate_runs(cases, runs, par=max(2, NPROC // 2))
+        tt = time.time()
+        tv = validate_runs(cases, runs, cfgt.get("trace_batch", 2500), par=max(2, NPROC // 2))
+        variant = "as the code (StoreMerged = TRUE)"
+        conf_model = mc          # the model variant the engine is compared with (predicted views / predicted failures)
+        if not tv["fail"] and any(f["f"] == "C_View" for f in tv["failed"]):
+            # the engine does not store merged ancestor values as own context any more (proposed fix applied?):
+            # the runs must then conform to the other variant of the model, throughout
+            tv2 = validate_runs(cases, runs, cfgt.get("trace_batch", 2500), par=max(2, NPROC // 2), store_merged=False)
+            if not tv2["fail"] and not any(f["f"].startswith("C_") for f in tv2["failed"]):
+                tv2["states"] += tv["states"]
+                tv2["generated"] += tv["generated"]
+                tv, conf_model = tv2, ideal
+                variant = "own context kept apart (StoreMerged = FALSE)"
+        t_trace = time.time() - tt
+        cov["conformance_model"] = variant
         if tv["fail"]:
             rep.machinery_failure("trace validation: " + tv["fail"])
         nruns = sum(1 for rs in runs for r in rs if r["events"])
         if not tv["fail"] and len(tv["done"]) != nruns:
             rep.machinery_failure("trace validation consumed %d of %d runs" % (len(tv["done"]), nruns))
         # -- spec -> code: every recorded view must be one the model (run as the code) predicted --------
-        predicted = mc["obs"]
+        predicted = conf_model["obs"]
         seen_pred: set = set()
         unpredicted = []
         nobs = 0
@@ -721,7 +758,7 @@ def run(pid: str, tier: str, seed: int, corrupt: bool = False, repo_src: str | N
                           % (PID, f["f"], f["s"], f["n"], f["k"], p["name"]),
                           {"formula": f["f"], "program": p, "source": "model-ideal", "stage": f["s"], "n": f["n"], "stale": False},
                           {"kind": "model", "program": p, "store_merged": False, "formula": f["f"]})
-        mc_fail_keys = {(f["ci"], f["s"], f["n"], f["f"], f["k"]) for f in mc["failed"]}
+        mc_fail_keys = {(f["ci"], f["s"], f["n"], f["f"], f["k"]) for f in conf_model["failed"]}
         tr_fail_keys = {(f["ci"], f["s"], f["n"], f["f"], f["k"]) for f in tv["failed"] if not f["f"].startswith("C_")}
         first_task = {(ci, s["ref"]): s["tasks"][0]["name"] for ci, p in enumerate(progs) for s in p["stages"]}
         mc_nonstale = [f for f in mc["failed"] if not (f["stale"] and f["n"] >= 1)]
@@ -765,7 +802,9 @@ def run(pid: str, tier: str, seed: int, corrupt: bool = False, repo_src: str | N
             "transitions": gen + (red["transitions"] if red else 0),
             "traces_validated_against_impl": len(tv["done"]) + (red["cases_replayed"] if red else 0),
             "programs": len(progs), "loop_programs": nloop, "shapes": _count(p.get("shape") for p in progs),
-            "engine_runs": nruns, "schedules_per_program": cfgt["scheds"] + 1, "hash_seeds": len(hashseeds),
+            "engine_runs": nruns, "engine_runs_skipped_wall_budget": skipped, "schedules_per_program": cfgt["scheds"] + 1, "schedules_per_exhaustive_program": 2,
+            "exhaustive_family": ("every DAG over <= %d stages x one key x per-stage {-, produces, own, both}: %d programs"
+                                  % (cfgt.get("exhaustive", 0), sum(1 for p in progs if str(p.get("shape", "")).startswith("exh")))), "hash_seeds": len(hashseeds),
             "observations_checked": nobs, "workflow_final_status": wf_status,
             "trace_validation": {"runs_consumed": len(tv["done"]), "states": tv["states"], "batches": tv["batches"],
                                  "tlc_wall_s": round(tv["wall"], 1), "false_formulas": byform},
@@ -788,7 +827,7 @@ def run(pid: str, tier: str, seed: int, corrupt: bool = False, repo_src: str | N
                                    | {"violations": len(red.get("violations", [])), "details": red.get("details")}
                                    if red else "not available"),
             "samples": samples + ((red.get("samples") or [])[:3] if red else []),
-            "engine_wall_s": round(t_engine, 1),
+            "engine_and_mc_wall_s": round(t_engine, 1), "trace_validation_wall_s": round(t_trace, 1),
         })
         del first_task
         nviol_total = len(rep.violations)
